@@ -623,7 +623,13 @@ fn run(ctx: &mut Ctx) {
     ctx.level_done("size-thresholds(strings-to-4097,containers-to-1025-members,and-around-65536)");
     // ---- rows built by selections (the printed row is an object made by jawk, not one it read), incl. selections sharing a name
     let sel_inputs = ["{\"a\": 1, \"b\": \"x\", \"c\": [1, {\"a\": 2}]}", "{\"a\": 1} {\"b\": 2} {\"c\": 3}", "{\"b\": null, \"a\": {\"b\": \"\\u00e9\"}}", "[1, 2] 5 {\"a\": []}"];
-    let sel_sets: [&[&str]; 13] = [
+    let sel_sets: [&[&str]; 17] = [
+        // a container printed by the row printer next to the same container turned into text by a function (which has a
+        // printer of its own, with a layout of its own)
+        &[".=v", "(stringify .)=s"],
+        &["(stringify .c)=s", ".c=c", ".a=a"],
+        &[".=v", "(len (stringify .))=n", "(parse (stringify .))=w"],
+        &["(map (push [] . .) (stringify .))=ss", ".=v"],
         &[".a=n"],
         &[".a=n", ".b=m"],
         &[".a=n", ".b=n"],
